@@ -1,6 +1,12 @@
 import RemocModel.Link.CloseInv
 import RemocModel.Link.Relay
+import RemocModel.Link.LrClass
 import RemocModel.Props.C01
+import RemocModel.Base.CloseProv
+import RemocModel.Base.CloseList
+import RemocModel.Base.CloseQuiet
+import RemocModel.Base.CloseAll
+import RemocModel.Base.CloseOnce
 set_option linter.unusedSimpArgs false
 
 /-!
@@ -17,8 +23,11 @@ position of a message stream (also in the middle of a chunked message).
   `ReceiveFinish` *non-gracefully*, the first of the two decides; afterwards no new credits can be
   obtained (`closed_blocks_requests`) and a waiting or later operation fails (`closed_enables_fail`).
 
-The typed channels (base, mpsc, lr, oneshot, bin) are covered by the correspondence runs of the
-typed-channel harness (predicate `c11`), not by theorems.
+The queued typed channels (`rch::mpsc`, `rch::oneshot`) have their own model M_close
+(`RemocModel/Base/Close*.lean`: local queue with `Sending` handles, `send_impl`, `recv_impl`, back
+channel, receiver `close()` / drop, sender clones local and remote, connection failure); the
+theorems are in the second half of this file (namespace `Remoc.Close`).  `rch::lr` is a base
+channel over one port: its statements are the M_link theorems above, read through `lrReason`.
 -/
 
 namespace Remoc.Link
@@ -158,4 +167,496 @@ def relayRun : List RLabel :=
 example : (rrun relayCfg relayCfg (rinit relayCfg relayCfg) relayRun).b.delivered = [[1, 2]] ∧
     (rrun relayCfg relayCfg (rinit relayCfg relayCfg) relayRun).a.completed = [[1, 2]] := by decide
 
+/-! ### `rch::lr` / `rch::base`: a typed channel directly on one port (no local queue)
+
+`lr::Sender::send` = `base::Sender::send` = serialize + `chmux::Sender::send`; a value is accepted exactly
+when its transmission completed, so there is no untransmitted suffix, `close_loses_nothing` /
+`eos_after_all_data` are the "keeps what was transmitted" statements, and the classification of the
+send error (`SendErrorKind::Send(Closed { gracefully })`, `lr::Sender::is_closed`) is the state of the
+credit provider: -/
+
+/-- what an `lr` / `base` sender reports once its credit provider is closed -/
+def lrReason : Option Bool → Option Remoc.Close.Reason
+  | some true => some .closed
+  | some false => some .dropped
+  | none => none
+
+/-- **lr/base classification, first cause wins**: handling `ReceiveClose` makes the sender report
+`Closed`, `ReceiveFinish` `Dropped`, unless it already reports a reason -/
+theorem lr_closed_classified (c : Cfg) (st st' : State) (b : Back) (bs : List Back)
+    (hb : st.back = b :: bs) (hs : step c st .provide = some st') :
+    lrReason st'.s.closed = match lrReason st.s.closed, b with
+      | some r, _ => some r
+      | none, .recvClose => some .closed
+      | none, .recvFinish => some .dropped
+      | none, _ => none := by
+  rw [close_classified c st st' b bs hb hs]
+  cases b <;> cases hcl : st.s.closed <;> (try (rename_i g; cases g)) <;> simp [lrReason]
+
+example : lrReason (run c11 (init c11) closeRun).s.closed = some .closed := by decide
+
+/-- **lr/base: the reported reason is the right one, for every schedule.**  The sender reports `Closed`
+only if the receiver called `close()` (before any drop), `Dropped` only if the receiver was dropped
+without a close before; and once every notification on the way back has been handled it reports
+exactly what the receiving side did first (eventually observable). -/
+theorem lr_classification_exact (c : Cfg) (st : State) (h : Reachable c st) :
+    (lrReason st.s.closed = some .closed → st.r.closed = true) ∧
+    (lrReason st.s.closed = some .dropped → st.r.closed = false ∧ st.r.dropped = true) ∧
+    (st.back = [] → lrReason st.s.closed =
+      (if st.r.closed then some .closed else if st.r.dropped then some .dropped else none)) := by
+  have hv := lr_view_reachable c st h
+  unfold lrView rxView at hv
+  refine ⟨?_, ?_, ?_⟩
+  · intro hc
+    cases hs : st.s.closed with
+    | none => simp [hs, lrReason] at hc
+    | some g =>
+      cases g with
+      | false => simp [hs, lrReason] at hc
+      | true =>
+        rw [hs] at hv
+        cases hrc : st.r.closed with
+        | true => rfl
+        | false => cases hrd : st.r.dropped <;> simp [hrc, hrd] at hv
+  · intro hc
+    cases hs : st.s.closed with
+    | none => simp [hs, lrReason] at hc
+    | some g =>
+      cases g with
+      | true => simp [hs, lrReason] at hc
+      | false =>
+        rw [hs] at hv
+        cases hrc : st.r.closed with
+        | true => simp [hrc] at hv
+        | false => cases hrd : st.r.dropped <;> simp [hrc, hrd] at hv ⊢
+  · intro hb
+    rw [hb] at hv
+    cases hs : st.s.closed with
+    | none =>
+      rw [hs] at hv
+      simp only [firstEnd] at hv
+      cases hrc : st.r.closed <;> cases hrd : st.r.dropped <;> simp [hrc, hrd, lrReason] at hv ⊢
+    | some g =>
+      rw [hs] at hv
+      cases g <;> cases hrc : st.r.closed <;> cases hrd : st.r.dropped <;> simp [hrc, hrd, lrReason] at hv ⊢
+
 end Remoc.Link
+
+/-! # Typed channels with a local queue: `rch::mpsc`, `rch::oneshot` (M_close) -/
+
+namespace Remoc.Close
+
+/-- **The values accepted but not transmitted form a suffix and are reported as dropped.**
+For every schedule: the values `send` accepted on a link (a `Sending` handle was issued) are, in
+the order of acceptance, first the ones whose handle is resolved, then the one `send_impl` is
+transmitting, then the ones still queued; the resolved results never show a dropped value before
+a transmitted (`Ok`) or individually failed one — no gap; exactly the transmitted values resolve
+`Ok`; nothing is dropped while `send_impl` runs; and once it has ended (close, receiver dropped,
+failure, all senders gone) every handle is resolved, i.e. the untransmitted suffix is all `Dropped`. -/
+theorem mpsc_queued_suffix_dropped (c : Cfg) (s : State) (h : Reachable c s) :
+    s.accepted = s.hres.map (·.1) ++ s.cur.toList ++ s.q ∧
+    (∃ pre suf, s.hres.map (·.2) = pre ++ suf ∧ NonDropped pre ∧ ∀ r ∈ suf, r = HRes.dropped) ∧
+    s.xmit = (s.hres.filter (·.2 == .ok)).map (·.1) ∧
+    (s.impl = none → NonDropped (s.hres.map (·.2))) ∧
+    (s.impl.isSome → s.accepted = s.hres.map (·.1)) := by
+  have q := qinv_reachable c s h
+  refine ⟨q.acc, suffixOk_split _ q.sorted, q.xm, q.running, fun hi => ?_⟩
+  obtain ⟨hc, hq⟩ := q.ended hi
+  rw [q.acc, hc, hq]; simp
+
+/-- **At the moment `send_impl` learns of the close / drop / failure** (any step that ends it): the
+handles resolved so far are untouched, exactly the values still queued locally are dropped, in
+order, and they are the tail of the accepted values. -/
+theorem mpsc_end_drops_exactly_queue (c : Cfg) (s s' : State) (l : Label) (h : Reachable c s)
+    (hrun : s.impl = none) (hs : step c s l = some s') (hend : s'.impl.isSome) :
+    s'.hres = s.hres ++ s.q.map (·, HRes.dropped) ∧ s'.accepted = s.accepted ∧ s'.xmit = s.xmit ∧
+    s.accepted = s.hres.map (·.1) ++ s.q := by
+  have q := qinv_reachable c s h
+  have hacc := q.acc
+  cases l <;> simp only [step] at hs <;> (repeat' split at hs) <;> (try (simp at hs; done)) <;>
+    (try (obtain rfl := Option.some.inj hs)) <;> (try (simp [hrun, rexit] at hend; done)) <;>
+    simp_all [endWith]
+
+/-- the same per sender clone `k` of the link: its accepted values are its resolved ones followed
+by its still queued ones, and its results alone never show a dropped value before another one -/
+theorem mpsc_queued_suffix_per_sender (c : Cfg) (s : State) (h : Reachable c s) (k : Nat) :
+    s.accepted.filter (·.sender == k) =
+      (s.hres.filter (·.1.sender == k)).map (·.1) ++ (s.cur.toList ++ s.q).filter (·.sender == k) ∧
+    suffixOk ((s.hres.filter (·.1.sender == k)).map (·.2)) = true := by
+  have q := qinv_reachable c s h
+  refine ⟨?_, suffixOk_sublist (List.Sublist.map _ List.filter_sublist) q.sorted⟩
+  rw [q.acc, List.append_assoc, List.filter_append, List.filter_map]
+  rfl
+
+/-! non-vacuity: two clones (0 and 1) of a remote sender accept three values; the first is transmitted,
+the receiver calls `close()`, the CLOSE byte reaches `send_impl` while two values are still queued -/
+def cfg3 : Cfg := { cap := 3, rcap := 2 }
+def qsRun : List Label :=
+  [.clone, .send ⟨1, 0, .no⟩, .grant, .send ⟨2, 1, .no⟩, .grant, .send ⟨3, 0, .no⟩, .grant, .implTake, .xmitDone,
+   .close, .rSeeClosed, .implBack]
+
+example : (run cfg3 (init 1 0 0) qsRun).accepted.map (·.id) = [1, 2, 3] ∧
+    (run cfg3 (init 1 0 0) qsRun).hres.map (fun p => (p.1.id, p.2)) = [(1, .ok), (2, .dropped), (3, .dropped)] ∧
+    (run cfg3 (init 1 0 0) qsRun).xmit.map (·.id) = [1] ∧
+    (run cfg3 (init 1 0 0) qsRun).impl = some .close ∧
+    (run cfg3 (init 1 0 0) qsRun).reason = some .closed := by decide
+
+/-- the step that ends `send_impl` in that run drops exactly the two queued values -/
+example : (run cfg3 (init 1 0 0) qsRun.dropLast).impl = none ∧
+    (run cfg3 (init 1 0 0) qsRun.dropLast).q.map (·.id) = [2, 3] ∧
+    (step cfg3 (run cfg3 (init 1 0 0) qsRun.dropLast) .implBack).isSome = true := by decide
+
+/-! ## classification -/
+
+/-- **The reason a sender observes is the right one** (`Sender::closed_reason()`, identical for every
+clone of a link because clones share the two watches; `is_closed()` = `isSome`).
+
+Remote clones: `Closed` only if the receiver called `close()`; `Dropped` only if the receiver was
+dropped; `Failed` only if the connection failed, or the forwarding of the receiver failed, or the
+transmission of some value failed (because that value cannot be sent, or the connection / the
+receiving task was gone).  Local clones read the receiver's own watch: `Closed` iff `close()` was
+called, `Dropped` iff the receiver was dropped without `close()`, never `Failed`. -/
+theorem mpsc_close_classified (c : Cfg) (s : State) (h : Reachable c s) :
+    (s.reason = some .closed → s.closeCalled = true) ∧
+    (s.reason = some .dropped → s.rAlive = false) ∧
+    (s.reason = some .failed → s.connDown = true ∨ s.fwdErr = true ∨
+      ∃ p ∈ s.hres, p.2 = HRes.sendErr ∧ (p.1.bad ≠ .no ∨ s.connDown = true ∨ s.rimpl.isSome)) ∧
+    (s.lreason = some .closed ↔ s.closeCalled = true) ∧
+    (s.lreason = some .dropped ↔ (s.rAlive = false ∧ s.closeCalled = false)) ∧
+    s.lreason ≠ some .failed := by
+  have a := allinv_reachable c s h
+  have hr := reason_eq s a.w
+  have hw := a.w.closedW
+  have hl : s.lreason = s.rW := by unfold State.lreason closedReasonOf; cases s.rW <;> rfl
+  refine ⟨?_, ?_, ?_, ?_, ?_, ?_⟩
+  · intro hc
+    rw [hr, hw] at hc
+    apply a.ci.iClose
+    cases hi : s.impl with
+    | none => cases hf : s.failFlag <;> simp [hi, hf, expW] at hc
+    | some x => cases x <;> cases hf : s.failFlag <;> simp_all [expW]
+  · intro hc
+    rw [hr, hw] at hc
+    apply a.ci.iFin
+    cases hi : s.impl with
+    | none => cases hf : s.failFlag <;> simp [hi, hf, expW] at hc
+    | some x => cases x <;> cases hf : s.failFlag <;> simp_all [expW]
+  · intro hc
+    rw [hr, hw] at hc
+    by_cases hf : s.failFlag = true
+    · right; right
+      obtain ⟨p, hp, hp2⟩ := List.mem_map.mp (a.f.ff.mp hf)
+      exact ⟨p, hp, hp2, a.f.why p hp hp2⟩
+    · have hf' : s.failFlag = false := by simpa using hf
+      cases hi : s.impl with
+      | none => simp [hi, hf', expW] at hc
+      | some x =>
+        cases x with
+        | close => simp [hi, expW] at hc
+        | fin => simp [hi, expW] at hc
+        | error => exact Or.inr (Or.inl (a.ci.iError hi))
+        | conn => exact Or.inl (a.ci.iConn hi)
+        | drained => simp [hi, hf', expW] at hc
+  · rw [hl]; exact ⟨a.p.wClosed, fun hc => a.p.flag (a.p.called hc)⟩
+  · rw [hl]
+    constructor
+    · intro hd
+      refine ⟨a.p.wDropped hd, ?_⟩
+      cases hcc : s.closeCalled with
+      | false => rfl
+      | true => have := a.p.flag (a.p.called hcc); simp [hd] at this
+    · intro ⟨ha, hcc⟩
+      have hs := a.k.dead ha
+      cases hw : s.rW with
+      | none => simp [hw] at hs
+      | some r =>
+        cases r with
+        | closed => have := a.p.wClosed hw; simp [hcc] at this
+        | dropped => rfl
+        | failed => exact absurd hw a.p.wFailed
+  · rw [hl]; exact a.p.wFailed
+
+/-- **First cause wins.**  Once `send_impl` has ended (the first close / drop / failure it learnt of,
+or all senders gone) no later event changes what the clones of the link observe, which handles are
+resolved how, or what was transmitted. -/
+theorem mpsc_first_cause_wins (c : Cfg) (s : State) (h : Reachable c s) (hend : s.impl.isSome) (ls : List Label) :
+    (run c s ls).reason = s.reason ∧ (run c s ls).impl = s.impl ∧ (run c s ls).hres = s.hres ∧
+    (run c s ls).xmit = s.xmit := by
+  induction ls generalizing s with
+  | nil => exact ⟨rfl, rfl, rfl, rfl⟩
+  | cons l ls ih =>
+    simp only [run]
+    split
+    · next s1 hs =>
+      have q := qinv_reachable c s h
+      obtain ⟨hc, hq⟩ := q.ended hend
+      have key : s1.closedW = s.closedW ∧ s1.errW = s.errW ∧ s1.impl = s.impl ∧ s1.hres = s.hres ∧ s1.xmit = s.xmit := by
+        cases l <;> simp only [step] at hs <;> (repeat' split at hs) <;> (try (simp at hs; done)) <;>
+          (try (obtain rfl := Option.some.inj hs)) <;> simp_all [rexit]
+      obtain ⟨k1, k2, k3, k4, k5⟩ := key
+      have := ih s1 (reachable_step c s s1 l h hs) (by rw [k3]; exact hend)
+      refine ⟨?_, by rw [this.2.1, k3], by rw [this.2.2.1, k4], by rw [this.2.2.2, k5]⟩
+      rw [this.1]; unfold State.reason; rw [k1, k2]
+    · exact ih s h hend
+
+/-- the same for local clones: their reason, once set, stays -/
+theorem mpsc_local_first_cause_wins (c : Cfg) (s s' : State) (l : Label) (h : Reachable c s) (r : Reason)
+    (hr : s.lreason = some r) (hs : step c s l = some s') : s'.lreason = some r := by
+  have a := allinv_reachable c s h
+  have hl : ∀ t : State, t.lreason = t.rW := by
+    intro t; unfold State.lreason closedReasonOf; cases t.rW <;> rfl
+  rw [hl] at hr ⊢
+  have h1 := a.p.wClosed
+  have h2 := a.p.called
+  have h3 := a.p.wDropped
+  have h4 := a.p.wFailed
+  cases l <;> simp only [step] at hs <;> (repeat' split at hs) <;> (try (simp at hs; done)) <;>
+    (try (obtain rfl := Option.some.inj hs)) <;> (try (exact hr)) <;> cases r <;> simp_all [rexit]
+
+/-- **Eventually observable.**  In a quiescent state (the runtime has nothing left to do), for a
+link with a live sender on which no transmission failed and whose receiver was not forwarded onwards:
+
+* the receiver called `close()`, is alive, `recv_impl` is not stuck behind a full queue, and the
+  connection is up: every clone observes `Closed`;
+* the receiver was dropped without `close()` and the connection is up: every clone observes `Dropped`;
+* the connection failed: every clone observes a reason (`is_closed()`), and it is `Failed` unless
+  a close or drop had been learnt of before.
+
+(Weak fairness of the scheduler turns "at quiescence" into "eventually".) -/
+theorem mpsc_close_observable_at_quiescence (c : Cfg) (s : State) (h : Reachable c s) (hq : Quiescent c s)
+    (hlive : s.handles ≠ 0) (hnf : s.failFlag = false) (hfe : s.fwdErr = false) :
+    (s.closeCalled = true → s.rAlive = true → s.rHold = none → s.connDown = false → s.reason = some .closed) ∧
+    (s.rAlive = false → s.closeCalled = false → s.connDown = false → s.reason = some .dropped) ∧
+    (s.connDown = true → s.reason.isSome ∧ (s.closeCalled = false → s.rAlive = true → s.reason = some .failed)) := by
+  have a := allinv_reachable c s h
+  refine ⟨?_, ?_, ?_⟩
+  · intro hcc ha hh hd
+    -- `send_impl` has ended
+    have hi : s.impl.isSome := by
+      cases hri : s.rimpl with
+      | some x => exact quiet_ended_of_rexit c s a hq hd (by simp [hri])
+      | none =>
+        have hu := (quiet_rimpl c s hq hri hh).1
+        rcases a.k.k1 hcc ha with h1 | h1 | h1 | h1
+        · simp [hu] at h1
+        · cases hi : s.impl with
+          | some x => rfl
+          | none =>
+            have hb := (quiet_running c s hq hi).1
+            rcases a.k.k2 h1 with h2 | h2
+            · simp [hb] at h2
+            · simp [hi] at h2
+        · simp [hd] at h1
+        · simp [hri] at h1
+    rcases ended_cause s a hlive hnf hfe hi with ⟨_, _, hr⟩ | ⟨_, hx, _⟩ | ⟨_, hx, _⟩
+    · exact hr
+    · simp [ha] at hx
+    · simp [hd] at hx
+  · intro ha hcc hd
+    have hi := quiet_ended_of_rexit c s a hq hd (quiet_dead c s hq ha)
+    rcases ended_cause s a hlive hnf hfe hi with ⟨_, hx, _⟩ | ⟨_, _, hr⟩ | ⟨_, hx, _⟩
+    · simp [hcc] at hx
+    · exact hr
+    · simp [hd] at hx
+  · intro hd
+    have hi : s.impl.isSome := by
+      cases hi : s.impl with
+      | some x => rfl
+      | none => have := (quiet_running c s hq hi).2; simp [hd] at this
+    rcases ended_cause s a hlive hnf hfe hi with ⟨_, hx, hr⟩ | ⟨_, hx, hr⟩ | ⟨_, _, hr⟩
+    · exact ⟨by simp [hr], fun hcc => by simp [hcc] at hx⟩
+    · exact ⟨by simp [hr], fun _ ha => by simp [ha] at hx⟩
+    · exact ⟨by simp [hr], fun _ _ => hr⟩
+
+/-! non-vacuity of the three clauses: quiescent states reached by `settle` -/
+def obsClose : State := settle cfg3 (run cfg3 (init 2 0 0) [.send ⟨1, 0, .no⟩, .grant, .close]) 40
+def obsDrop : State := settle cfg3 (run cfg3 (init 2 0 0) [.send ⟨1, 0, .no⟩, .grant, .dropRx]) 40
+def obsConn : State := settle cfg3 (run cfg3 (init 2 0 0) [.send ⟨1, 0, .no⟩, .grant, .connFail]) 40
+
+example : quiescentB cfg3 obsClose = true ∧ obsClose.handles = 2 ∧ obsClose.closeCalled = true ∧
+    obsClose.rAlive = true ∧ obsClose.rHold = none ∧ obsClose.reason = some .closed := by decide
+example : quiescentB cfg3 obsDrop = true ∧ obsDrop.rAlive = false ∧ obsDrop.closeCalled = false ∧
+    obsDrop.reason = some .dropped := by decide
+example : quiescentB cfg3 obsConn = true ∧ obsConn.connDown = true ∧ obsConn.reason = some .failed := by decide
+
+/-! ## nothing transmitted is lost; end-of-stream comes last -/
+
+/-- **Close keeps what was transmitted.**  What the receiver obtained from the link is always, in
+order, a prefix of the values whose transmission completed; and when `recv` reports a clean
+end-of-stream it has obtained every one of them. -/
+theorem mpsc_close_keeps_transmitted (c : Cfg) (s : State) (h : Reachable c s) :
+    (∃ rest, remOf s.delivered ++ rest = s.xmit) ∧
+    (s.eos = some true → remOf s.delivered = s.xmit) := by
+  have i := allinv2_reachable c s h
+  constructor
+  · exact ⟨remOf s.lost ++ remOf s.rq ++ remOf s.rHold.toList ++ wireVals s.wire, by
+      rw [i.d.d1, i.d.d2]; simp [List.append_assoc]⟩
+  · intro he
+    have hfin := i.e.e9 he
+    have hw := i.d.d4 hfin
+    have hh := i.a.k.hold (by simp [hfin])
+    have hrq := (i.e.e8 (by simp [he])).1
+    have hl := i.e.e11 he
+    rw [i.d.d1, i.d.d2, hw, hh, hrq, hl]
+    simp [remOf, wireVals]
+
+/-- in the words of the property: every value whose transmission had completed before `send_impl`
+learnt of the close (or drop, or failure) is delivered before a clean end-of-stream — for every
+continuation of the run -/
+theorem mpsc_close_keeps_transmitted_before (c : Cfg) (s : State) (h : Reachable c s) (hend : s.impl.isSome)
+    (ls : List Label) (heos : (run c s ls).eos = some true) : remOf (run c s ls).delivered = s.xmit := by
+  rw [← (mpsc_first_cause_wins c s h hend ls).2.2.2]
+  exact (mpsc_close_keeps_transmitted c _ (reachable_run c s ls h)).2 heos
+
+/-- **End-of-stream only after all senders.**  When `recv` reports the end of the stream, the queue
+is empty and every reference to its sending side is gone: `recv_impl` has returned, the other links
+are gone, every local sender is dropped or observes the close.  If the end is clean (`Ok(None)`),
+`send_impl` of the link has ended, every remote clone is dropped or observes a reason, everything
+transmitted and every local value accepted was delivered. -/
+theorem mpsc_eos_after_all_senders (c : Cfg) (s : State) (h : Reachable c s) (he : s.eos.isSome) :
+    s.rq = [] ∧ s.rimpl.isSome ∧ s.lholder = false ∧ s.otherRefs = 0 ∧
+    (s.lhandles = 0 ∨ s.lreason.isSome) ∧
+    (s.eos = some true →
+      s.impl.isSome ∧ (s.handles = 0 ∨ s.reason.isSome) ∧ remOf s.delivered = s.xmit ∧
+      locOf s.delivered = s.lAccepted) := by
+  have i := allinv2_reachable c s h
+  obtain ⟨h1, h2, h3, h4⟩ := i.e.e8 he
+  have hl : s.lreason = s.rW := by unfold State.lreason closedReasonOf; cases s.rW <;> rfl
+  refine ⟨h1, h2, h3, h4, ?_, fun ht => ?_⟩
+  · rw [hl]; rcases i.e.e12 h3 with h | h
+    · exact Or.inr h
+    · exact Or.inl h
+  · have hi := i.a.ci.rFin (i.e.e9 ht)
+    refine ⟨hi, ended_observed s i.a hi, (mpsc_close_keeps_transmitted c s h).2 ht, ?_⟩
+    rw [i.l.l13, h1, i.e.e11 ht]; simp [locOf]
+
+/-- local senders: the accepted values are the resolved ones followed by the ones still in the
+receiver's queue; delivered ones resolve `Ok`, the ones lost with a dropped receiver `Dropped`,
+never a dropped one before a delivered one -/
+theorem mpsc_local_queued_suffix (c : Cfg) (s : State) (h : Reachable c s) :
+    s.lAccepted = s.lhres.map (·.1) ++ locOf s.rq ∧ suffixOk (s.lhres.map (·.2)) = true ∧
+    (s.rAlive = false → s.lAccepted = s.lhres.map (·.1)) := by
+  have i := allinv2_reachable c s h
+  refine ⟨?_, ?_, fun ha => ?_⟩
+  · rw [i.l.l13, i.l.l14]; simp [Function.comp_def]
+  · rw [i.l.l14]
+    simp only [List.map_append, List.map_map]
+    exact suffixOk_nonDropped_append _ _ (by intro r hr; simp at hr; rw [← hr.2]; simp) (by intro r hr; simp at hr; exact hr.2.symm)
+  · rw [i.l.l13, i.l.l14, i.d.d6 ha]; simp [Function.comp_def, locOf]
+
+/-! non-vacuity: a local sender and two remote clones; two values are transmitted, a third is still
+queued when the CLOSE byte arrives; the receiver drains and gets a clean end-of-stream -/
+def cfg4 : Cfg := { cap := 3, rcap := 4 }
+def eosRun : State :=
+  run cfg4 (settle cfg4 (run cfg4 (init 2 1 0)
+    [.lsend ⟨10, 9, .no⟩, .send ⟨1, 0, .no⟩, .grant, .send ⟨2, 1, .no⟩, .grant, .implTake, .xmitDone, .implTake, .xmitDone,
+     .send ⟨3, 0, .no⟩, .grant, .close, .rSeeClosed, .implBack]) 40)
+    [.recv, .recv, .recv, .recv]
+
+example : eosRun.eos = some true ∧ eosRun.impl = some .close ∧ eosRun.handles = 2 ∧ eosRun.reason = some .closed ∧
+    eosRun.xmit.map (·.id) = [1, 2] ∧ (remOf eosRun.delivered).map (·.id) = [1, 2] ∧
+    eosRun.hres.map (fun p => (p.1.id, p.2)) = [(1, .ok), (2, .ok), (3, .dropped)] ∧
+    (locOf eosRun.delivered).map (·.id) = [10] ∧ eosRun.lhres.map (·.2) = [.ok] ∧
+    eosRun.lreason = some .closed := by decide
+
+/-! ## `rch::oneshot` -/
+
+/-- **oneshot: at most one value, same classification, the value is transmitted or reported.**
+For every schedule of a oneshot channel: at most one value is ever accepted; the reason the (unsent)
+sender observes is classified as for mpsc; once `send_impl` has ended the handle of the accepted value
+is resolved — `Ok` iff it was transmitted, else the send error or `Dropped`; and a clean end at the
+receiver (`RecvError::Closed` when nothing was delivered) means that everything transmitted was
+delivered, i.e. the receiver reports "closed without a value" only if no value was transmitted. -/
+theorem oneshot_closed_classified (c : Cfg) (s : State) (h : ReachableOnce c s) :
+    s.accepted.length ≤ 1 ∧
+    (s.reason = some .closed → s.closeCalled = true) ∧
+    (s.reason = some .dropped → s.rAlive = false) ∧
+    (s.reason = some .failed → s.connDown = true ∨ s.fwdErr = true ∨
+      ∃ p ∈ s.hres, p.2 = HRes.sendErr ∧ (p.1.bad ≠ .no ∨ s.connDown = true ∨ s.rimpl.isSome)) ∧
+    (∀ v, s.accepted = [v] → s.impl.isSome →
+      (s.hres = [(v, .ok)] ∧ s.xmit = [v]) ∨ (s.hres = [(v, .sendErr)] ∧ s.xmit = []) ∨
+      (s.hres = [(v, .dropped)] ∧ s.xmit = [])) ∧
+    (s.eos = some true → remOf s.delivered = s.xmit) := by
+  have hr := h.reachable
+  have o := oinv_reachable c s h
+  have cl := mpsc_close_classified c s hr
+  have q := qinv_reachable c s hr
+  refine ⟨by have := o.one; omega, cl.1, cl.2.1, cl.2.2.1, ?_, (mpsc_close_keeps_transmitted c s hr).2⟩
+  intro v hv hi
+  obtain ⟨hc, hq⟩ := q.ended hi
+  have hacc := q.acc
+  rw [hv, hc, hq] at hacc
+  simp only [Option.toList, List.append_nil] at hacc
+  have hx := q.xm
+  cases hh : s.hres with
+  | nil => simp [hh] at hacc
+  | cons p ps =>
+    rw [hh] at hacc hx
+    simp only [List.map_cons, List.cons.injEq] at hacc
+    have hps : ps = [] := by simpa using hacc.2.symm
+    subst hps
+    obtain ⟨pv, pr⟩ := p
+    have : pv = v := hacc.1.symm
+    subst this
+    cases pr
+    · left; exact ⟨rfl, by rw [hx]; rfl⟩
+    · right; left; exact ⟨rfl, by rw [hx]; rfl⟩
+    · right; right; exact ⟨rfl, by rw [hx]; rfl⟩
+
+/-- oneshot: the reason becomes observable exactly as for mpsc (instance of
+`mpsc_close_observable_at_quiescence` for the still unsent sender) -/
+theorem oneshot_close_observable_at_quiescence (c : Cfg) (s : State) (h : ReachableOnce c s) (hq : Quiescent c s)
+    (hlive : s.handles ≠ 0) (hfe : s.fwdErr = false) :
+    (s.closeCalled = true → s.rAlive = true → s.rHold = none → s.connDown = false → s.reason = some .closed) ∧
+    (s.rAlive = false → s.closeCalled = false → s.connDown = false → s.reason = some .dropped) ∧
+    (s.connDown = true → s.reason.isSome) := by
+  have o := oinv_reachable c s h
+  have a := allinv_reachable c s h.reachable
+  -- the sender is unsent: nothing was accepted, so no transmission can have failed
+  have hacc : s.accepted = [] := by
+    have := o.one
+    cases hl : s.accepted with
+    | nil => rfl
+    | cons x xs => simp [hl] at this; omega
+  have hnf : s.failFlag = false := by
+    cases hf : s.failFlag with
+    | false => rfl
+    | true =>
+      have hm := a.f.ff.mp hf
+      have hacc2 := a.q.acc
+      rw [hacc] at hacc2
+      have hh : s.hres = [] := by
+        cases hh : s.hres with
+        | nil => rfl
+        | cons p ps => simp [hh] at hacc2
+      rw [hh] at hm
+      simp at hm
+  have m := mpsc_close_observable_at_quiescence c s h.reachable hq hlive hnf hfe
+  exact ⟨m.1, m.2.1, fun hd => (m.2.2 hd).1⟩
+
+/-! non-vacuity: the value is accepted and transmitted, the receiver takes it, then a clean end;
+and: the receiver is dropped before the value is transmitted — the handle reports `Dropped` -/
+def cfgOnce : Cfg := { cap := 1, rcap := 1, oneshot := true }
+def onceOk : State := run cfgOnce (settle cfgOnce (run cfgOnce (init 1 0 0) [.sendOnce ⟨7, 0, .no⟩]) 40) [.recv, .recv]
+def onceDrop : State := settle cfgOnce (run cfgOnce (init 1 0 0) [.dropRx, .rSeeClosed, .sendOnce ⟨7, 0, .no⟩, .implBack]) 40
+
+example : ReachableOnce cfgOnce (run cfgOnce (init 1 0 0) [.sendOnce ⟨7, 0, .no⟩]) := ⟨rfl, 0, 0, _, rfl⟩
+example : onceOk.accepted.map (·.id) = [7] ∧ onceOk.hres.map (·.2) = [.ok] ∧ onceOk.eos = some true ∧
+    (remOf onceOk.delivered).map (·.id) = [7] ∧ onceOk.handles = 0 := by decide
+example : onceDrop.accepted.map (·.id) = [7] ∧ onceDrop.hres.map (·.2) = [.dropped] ∧ onceDrop.xmit = [] ∧
+    onceDrop.impl = some .fin ∧ onceDrop.reason = some .dropped := by decide
+
+/-! ## observation F-TC-1 (witness, not a theorem about all inputs)
+
+The error returned by a `send` that was *waiting for queue space* when `send_impl` ended is always
+`SendError::Closed` (`tx.send(req).await` failed; sender.rs `Sender::send`), whose `closed_reason()`
+is `Closed` — also when the receiver was dropped or the connection failed; `Sender::closed_reason()`
+and every later `send` report the true reason.  The same holds for every `send` of a local clone
+after the receiver was dropped.  Model: label `waitFail`. -/
+def ftc1Run : List Label :=
+  [.send ⟨1, 0, .no⟩, .grant, .send ⟨2, 0, .no⟩, .grant, .send ⟨3, 0, .no⟩, .dropRx, .rSeeClosed, .implBack, .waitFail]
+
+example : (run {} (init 1 0 0) ftc1Run).reason = some .dropped ∧
+    (run {} (init 1 0 0) ftc1Run).refused.map (fun p => (p.1.id, p.2)) = [(3, some .closed)] := by decide
+
+end Remoc.Close
